@@ -24,16 +24,16 @@ def UPD(mes, d, fd=0):
     return {"op": "update", "mes": mes, "def": d, "faildial": fd}
 
 
-def RPC(name=""):
-    return {"op": "rpc", "name": name}
+def RPC(name="", stream=False):
+    return {"op": "rpc", "name": name, "stream": stream}
 
 
 SCENARIOS = {
     # the default MultiEndpoint's only endpoint is replaced while calls are being routed
-    "swap-endpoint": ([NEW([ME("m1", "a")], "m1")], [RPC(""), UPD([ME("m1", "b")], "m1"), RPC("m1")], [RPC(""), {"op": "close"}]),
+    "swap-endpoint": ([NEW([ME("m1", "a")], "m1")], [RPC("", True), UPD([ME("m1", "b")], "m1"), RPC("m1")], [RPC(""), {"op": "close"}]),
     # the default MultiEndpoint is renamed and moved to another endpoint
-    "rename-default": ([NEW([ME("m1", "a"), ME("m2", "b")], "m1")], [RPC(""), UPD([ME("m3", "c"), ME("m2", "b")], "m3"), RPC("m2")],
-                       [RPC(""), RPC("m1"), {"op": "close"}]),
+    "rename-default": ([NEW([ME("m1", "a"), ME("m2", "b")], "m1")], [RPC(""), UPD([ME("m3", "c"), ME("m2", "b")], "m3"), RPC("m2", True)],
+                       [RPC("", True), RPC("m1"), {"op": "close"}]),
     # a rejected update (failing dial) next to calls
     "rejected": ([NEW([ME("m1", "a", "b")], "m1")], [RPC(""), UPD([ME("m1", "c", "a")], "m1", 1), RPC("zz")], [RPC(""), {"op": "close"}]),
 }
